@@ -30,8 +30,10 @@ type SMPOutcome struct {
 // Party is a complete OTR participant built only on this package. It is used
 // as an authenticated peer that may be told to misbehave.
 type Party struct {
-	Version uint16
-	Key     *DSAKey
+	shortTries int
+	SMPShort string // passed to the SMP runs this party takes part in (see SMP.Short)
+	Version  uint16
+	Key      *DSAKey
 	// Advertise, when set, is the PUBKEY placed in the encrypted signature instead of Key's own.
 	Advertise []byte
 	Rnd       func(n int) []byte
@@ -524,7 +526,15 @@ func (p *Party) newSMP(secret []byte, initiator bool) *SMP {
 	} else {
 		s = SMPSecret(their, our, p.SSID[:], secret)
 	}
-	return &SMP{Secret: s, Rnd: p.smpRnd, NoGroupCheck: p.SkipGroupCheck}
+	return &SMP{Secret: s, Rnd: p.smpRnd, NoGroupCheck: p.SkipGroupCheck, Short: p.SMPShort}
+}
+
+// SMPShortTries reports how many re-draws the current SMP run spent on making its chosen value short.
+func (p *Party) SMPShortTries() int {
+	if p.smp == nil {
+		return p.shortTries
+	}
+	return p.smp.ShortTries + p.shortTries
 }
 
 // SMPStart begins an honest SMP run and returns the message to send.
